@@ -16,6 +16,10 @@ DEFAULT_W = dict(
     invoke=0.30,
     obj_param=0.45,      # a parameter is a dig.In object
     deeptree=0.1,        # scope trees that grow deep, with siblings below depth 2
+    errif=0.08,          # an error result is declared with a user-defined interface embedding error
+    blankgroup=0.03,     # group names that differ by a leading / trailing blank
+    multias=0.25,        # (given As) several results sharing the As list, one of them being a listed interface itself
+    optseq=0.3,          # container options given in another order / repeated (the last value counts)
     shadow=0.03,         # one key provided in a scope and in an ancestor, decorated on the path, consumed below
     vizgroup=0.0,        # a value group with failing members, consumed and drawn with that Invoke's error
     loc=0.03,            # Provide carries dig.LocationForPC
@@ -104,6 +108,17 @@ class Gen:
     def pick_name(self):
         return self.r.choice(NAMES) if self.p("named") else ""
 
+    def err_t(self):
+        """the type of an error result: `error`, sometimes the user-defined error interface EI"""
+        return u(5) if self.r.random() < self.w["errif"] else u(0)
+
+    def pick_group(self):
+        """a group name; rarely one that differs from another only by a blank"""
+        g = self.r.choice(GROUPS)
+        if self.r.random() < self.w["blankgroup"]:
+            g = self.r.choice([g + " ", " " + g])
+        return g
+
     def slice_of(self, elem):
         for t in TYPES:
             if t["kind"] == "slice" and t["elem"] == elem and t["id"] not in (50, 51):
@@ -158,7 +173,7 @@ class Gen:
                     if self.groups_fed and r.random() < 0.75:
                         (_, elem, g) = r.choice(self.groups_fed)
                     else:
-                        elem, g = self.pick_type(None), r.choice(GROUPS)
+                        elem, g = self.pick_type(None), self.pick_group()
                     sl = self.slice_of(elem)
                     if elem == 11 and r.random() < 0.2:
                         sl = 51          # named slice consumer
@@ -227,7 +242,7 @@ class Gen:
                 t = ty if j == 0 else self.pick_type(None)
                 c = r.random()
                 if c < self.w["group"]:
-                    g = r.choice(GROUPS)
+                    g = self.pick_group()
                     if r.random() < 0.4:
                         fs.append(self.field("R%d" % j, u(self.slice_of(t)), {"group": g + ",flatten"}))
                     else:
@@ -256,7 +271,7 @@ class Gen:
                 outs.append(u(self.pick_type(None)))
             c = r.random()
             if c < self.w["group"]:
-                g = r.choice(GROUPS)
+                g = self.pick_group()
                 if r.random() < 0.35 and len(outs) == 1:
                     outs = [u(self.slice_of(ty))]
                     opts["group"] = g + ",flatten"
@@ -266,7 +281,14 @@ class Gen:
             elif c < self.w["group"] + self.w["named"]:
                 opts["name"] = r.choice(["n1", "n2"])
                 opts["opts"].append("name")
-            if self.p("as_"):
+            if self.p("as_") and self.p("multias") and "flatten" not in opts["group"]:
+                # several results share the As list; one of them is itself one of the listed interfaces
+                impl = r.choice([10, 11])
+                outs = r.choice([[u(23), u(impl)], [u(impl), u(23)], [u(23), u(impl), u(r.choice([10, 11]))]])
+                lst = r.choice([[23, 20], [23, 22], [20, 23], [23, 20, 22], [22, 23, 20]])
+                opts["as"] = [{"iface": i} for i in lst]
+                opts["opts"].append("as")
+            elif self.p("as_"):
                 cands = [i for i in IF if i in IMPLS.get(ty, [])]
                 if cands and len(outs) == 1 and "flatten" not in opts["group"]:
                     k = r.choice([1, 1, 2])
@@ -276,9 +298,9 @@ class Gen:
                     opts["opts"].append("as")
         if r.random() < 0.45:
             pos = r.choice([len(outs), len(outs), 0, r.randrange(0, len(outs) + 1)])
-            outs.insert(pos, u(0))
+            outs.insert(pos, self.err_t())
             if r.random() < 0.1:
-                outs.insert(r.randrange(0, len(outs) + 1), u(0))
+                outs.insert(r.randrange(0, len(outs) + 1), self.err_t())
         return outs, opts
 
     def new_fn(self, ins, outs, variadic=False, nonfunc=None):
@@ -539,7 +561,13 @@ class Gen:
                         (_, t, nm) = r.choice(self.provided)
                     else:
                         t, nm = r.choice(PT), ""
-                    if nm:
+                    if r.random() < 0.15:
+                        # the decorated value sits in a result object nested in a result object
+                        if r.random() < 0.8:
+                            ins.append(self.single_in(t, nm))
+                        inner = self.st([self.out_field(), self.field("V", u(t), {"name": nm} if nm else {})])
+                        outs.append(self.st([self.out_field(), self.field("N", inner)]))
+                    elif nm:
                         ins.append(self.st([self.in_field(), self.field("V", u(t), {"name": nm})]))
                         outs.append(self.st([self.out_field(), self.field("V", u(t), {"name": nm})]))
                     else:
@@ -549,7 +577,7 @@ class Gen:
             if r.random() < 0.5:
                 ins += self.gen_params(None, r.choice([0, 1]), scope=scope)
             if r.random() < 0.4:
-                outs.insert(r.choice([len(outs), len(outs), r.randrange(0, len(outs) + 1)]), u(0))
+                outs.insert(r.choice([len(outs), len(outs), r.randrange(0, len(outs) + 1)]), self.err_t())
             fid = self.new_fn(ins, outs)
         self.ops.append({"op": "decorate", "scope": scope, "fn": fid, "cb": self.p("cb"), "info": r.random() < 0.7})
 
@@ -942,6 +970,17 @@ class Gen:
     def program(self):
         r = self.r
         cfg = {"defer": self.p("defer"), "recover": self.p("recover"), "dry": self.p("dry")}
+        if self.p("optseq"):
+            # the container options in a random order, DryRun possibly given twice (the last value counts)
+            seq = [["dry", cfg["dry"]]]
+            if cfg["defer"]:
+                seq.append(["defer", True])
+            if cfg["recover"]:
+                seq.append(["recover", True])
+            r.shuffle(seq)
+            if r.random() < 0.5:
+                seq.insert(r.randrange(0, seq.index(["dry", cfg["dry"]]) + 1), ["dry", not cfg["dry"]])
+            cfg["optseq"] = seq
         nops = r.randrange(4, self.w["max_ops"] + 1)
         # optionally start with a few scopes so that registrations land in a tree
         for _ in range(r.choice([0, 0, 1, 2]) + (r.choice([0, 2, 3]) if self.p("deeptree") else 0)):
